@@ -45,7 +45,9 @@ type Options struct {
 }
 
 // Build converts a parsed tree.
-func Build(n *opc.Node, o *Options) *Node {
+func Build(n *opc.Node, o *Options) *Node { return build(n, o, false) }
+
+func build(n *opc.Node, o *Options, preserve bool) *Node {
 	if n == nil {
 		return nil
 	}
@@ -56,13 +58,19 @@ func Build(n *opc.Node, o *Options) *Node {
 			continue
 		}
 		if an == "xml:space" {
-			continue // only meaningful together with edge whitespace, which is compared through the text itself
+			// not compared as an attribute: what it means is compared through the text (below); it is inherited by descendants
+			preserve = a.Value == "preserve"
+			continue
 		}
 		c.Attrs = append(c.Attrs, an+"="+a.Value)
 	}
 	sort.Strings(c.Attrs)
 	if textElements[n.Local] {
+		// the text as a consumer sees it: without xml:space="preserve" leading and trailing white space is not significant
 		c.Text = n.Text
+		if !preserve {
+			c.Text = strings.TrimSpace(n.Text)
+		}
 	} else {
 		c.Text = strings.TrimSpace(n.Text)
 	}
@@ -70,7 +78,7 @@ func Build(n *opc.Node, o *Options) *Node {
 		c.Text = "<masked>"
 	}
 	for _, k := range n.Children {
-		kc := Build(k, o)
+		kc := build(k, o, preserve)
 		if emptyOptional[k.Local] && len(kc.Attrs) == 0 && len(kc.Children) == 0 && kc.Text == "" {
 			continue
 		}
